@@ -400,6 +400,12 @@ func (ps *parser) primary() Expr {
 			ps.expect(")")
 			return e
 		}
+		// a slice type used as a type argument (typeIs(x, *[]byte), payload(x, *[]byte)): "[]" elem
+		if t.text == "[" && ps.isOp("]") {
+			ps.next()
+			el := ps.unary()
+			return &EIdent{Name: "[]" + el.String()}
+		}
 	}
 	ps.p--
 	ps.fail("unexpected %q", t.text)
